@@ -79,6 +79,16 @@ AfterOne(s, i) ==
         ELSE [s EXCEPT !.th[i].todo = Tail(@), !.th[i].sid = "none",
                        !.th[i].pc = "m.sid_from_eio_sid"]
 
+(* the client turned out not to be connected: nothing to do for it *)
+NotConn(s, i) ==
+    LET t == s.th[i]
+    IN  IF t.op = "lost"
+        THEN (IF t.todo = <<>> THEN Goto(s, i, "environ.has")
+              ELSE [s EXCEPT !.th[i].ns = Head(t.todo), !.th[i].todo = Tail(t.todo),
+                             !.th[i].sid = "none", !.th[i].pc = "m.sid_from_eio_sid"])
+        ELSE Done(s, i, "ok")
+Marked(s, x) == x # "none" /\ s.pending[x] > 0
+
 Step(s, i) ==
     LET t == s.th[i] IN
     CASE t.pc = "start" ->
@@ -103,15 +113,16 @@ Step(s, i) ==
       [] t.pc = "m.sid_from_eio_sid" ->
             [s EXCEPT !.th[i].sid = SidOn(s, t.ns), !.th[i].pc = "m.is_connected"]
       [] t.pc \in {"m.can_disconnect", "m.is_connected"} ->
-            (IF ~IsConnected(s, t.sid)
-             THEN (IF t.op = "lost"
-                   THEN (IF t.todo = <<>> THEN Goto(s, i, "environ.has")
-                         ELSE [s EXCEPT !.th[i].ns = Head(t.todo), !.th[i].todo = Tail(t.todo),
-                                        !.th[i].sid = "none", !.th[i].pc = "m.sid_from_eio_sid"])
-                   ELSE Done(s, i, "ok"))
-             ELSE IF "D7" \in Dev THEN [Goto(s, i, "m.pre_disconnect") EXCEPT !.th[i].dest = FALSE]
+            (IF "D7" \in Dev
+             \* the code: is_connected reads the mark first (base_manager.py 62-66) ...
+             THEN (IF Marked(s, t.sid) THEN NotConn(s, i) ELSE Goto(s, i, "isc.member"))
              \* design: the gate is atomic - test and mark in one step
+             ELSE IF ~IsConnected(s, t.sid) THEN NotConn(s, i)
              ELSE PreDisconnect(s, i, t.sid, IF t.op \in {"api", "api_other"} THEN "eio.send" ELSE "handler"))
+      [] t.pc = "isc.member" ->           \* ... and the membership second (67-70): two accesses
+            (IF t.sid # "none" /\ s.member[t.sid]
+             THEN [Goto(s, i, "m.pre_disconnect") EXCEPT !.th[i].dest = FALSE]
+             ELSE NotConn(s, i))
       [] t.pc = "m.pre_disconnect" ->
             PreDisconnect(s, i, t.sid, IF t.op \in {"api", "api_other"} THEN "eio.send" ELSE "handler")
       [] t.pc = "eio.send" ->
